@@ -310,6 +310,20 @@ Definition metric_name_mode (names : list key) (ms : modes) (metric : metric_ref
       end
   end.
 
+(* ---- the summary at the end of Tuner.run() ---------------------------------
+   print_best_metric_found(tuning_status, metric_names=scheduler.metric_names(),
+                           mode=scheduler.metric_mode())
+   The mode is passed as the scheduler returns it: a list for several metrics.
+   Inside, `if mode == "min"` is false for every list, so a list is read as "max". *)
+Definition summary_mode (ms : modes) : mode :=
+  match ms with OneMode m => m | ModeList _ => Max end.
+
+Definition tuner_final_summary (names : list key) (ms : modes) (ts : tstatus) : option (Z * num) :=
+  match names with
+  | [] => None                                   (* IndexError *)
+  | name :: _ => print_best ts name (summary_mode ms)
+  end.
+
 (* ---- Tuner.best_config --------------------------------------------------- *)
 Inductive outcome (A : Type) := Ok (a : A) | Err.
 Arguments Ok {A} a.
